@@ -173,7 +173,7 @@ FAMILIES = {
     "tmplparams": dict(
         consts=dict(Raises="NoRaises", Kinds="FTP_Kinds", Paths="FTP_Paths", Consts="None0", Tmpls="FTP_Tmpls",
                     Fns="None0", Bodies="None0", DispVals="NoSeq", Preds="None0", Presets="FTP_Presets",
-                    MapPaths="None0", Leaves="FTP_Leaves"),
+                    MapPaths="None0", Leaves="FTP_Leaves", ParamKinds="FTP_ParamKinds"),
         sharing=True,
         runs={"quick": [dict(mode="bfs", max_nodes=3)], "thorough": [dict(mode="bfs", max_nodes=4)]},
         shards=[["tmpl"]], shard_defs={"tmpl": "SK_tmpl"}),
@@ -288,7 +288,7 @@ def write_cfg(path, fam, tier, roots_def, invariants, emit, max_nodes, min_nodes
               nshards=1, shard=0):
     f = FAMILIES[fam]
     lines = ["SPECIFICATION MCSpec", "CONSTANTS"]
-    consts = dict(Cbs="NoCb", EffSets="NoEff", Caches="MemOnly", BothPresets="FALSE", CollKinds="AllColl", PlainOpts="FALSE", KindSeq="NoSeq", DispPaths="None0")
+    consts = dict(Cbs="NoCb", EffSets="NoEff", Caches="MemOnly", BothPresets="FALSE", CollKinds="AllColl", PlainOpts="FALSE", KindSeq="NoSeq", DispPaths="None0", ParamKinds="PK_Default")
     consts.update(f["consts"])
     if not sim and "bfs_consts" in f:
         consts.update(f["bfs_consts"])
